@@ -303,7 +303,9 @@ package utreexo
 //@   requires delHashes == nil || len(delHashes) == len(proof.Targets)
 //@   ensures err == nil ==> len(hp.positions) == len(hp.hashes)
 //@   ensures len(roots) == len(rootPos)
+//@   ensures numLeaves <= pow2(63) ==> (forall k in 0..len(rootPos): exists r in 0..64: uint8(r) <= treeRowsS(numLeaves) && hasRoot(numLeaves, uint8(r)) && rootPos[k] == rootPosS(numLeaves, uint8(r), treeRowsS(numLeaves)))
 //@   loop 1: invariant 1 <= i
+//@   loop 2: invariant numLeaves <= pow2(63) ==> (forall k in 0..len(calculatedRootPositions): exists r in 0..64: uint8(r) <= treeRowsS(numLeaves) && hasRoot(numLeaves, uint8(r)) && calculatedRootPositions[k] == rootPosS(numLeaves, uint8(r), treeRowsS(numLeaves)))
 //@   loop 1: decreases len(toProve.positions) - i
 //@   loop 2: invariant 0 <= toProveIdx && toProveIdx <= len(toProve.positions) && len(toProve.positions) == len(toProve.hashes)
 //@   loop 2: invariant 0 <= nextProvesIdx && nextProvesIdx <= len(nextProves.positions) && len(nextProves.positions) == len(nextProves.hashes)
